@@ -203,5 +203,21 @@ CHECKS = {
         note="Trusted: evaluation points read from the solver code (Moreau explicit midpoint, DSV implicit midpoint, Rattle/BackwardEuler end point); RATTLE and BackwardEuler judged as position-level "
              "schemes; steps whose active-set decision lies in the 1e-7 tolerance band are excluded and counted; aborted executions are counted.",
         design="§3 C18"),
+    "C17": dict(
+        level="model_checking", engine="grid",
+        technique="exhaustive product enumeration of mechanism x forces x initial state x solver x step size executions on the real integrators; constraint residuals recomputed at every stored step from the stored rows",
+        text="7 mechanisms (point-mass pendulum, rigid-body pendulum, cylindrical joint, pendulum on a translating and rotating frame, welded bodies, double pendulum, closed slider-crank) x {gravity, +spring} x {rest, "
+             "consistent generic velocity} x 8 solver letters (Rattle, BackwardEuler, Moreau, DualStormerVerlet LU / variable mass / matrix-free MINRES, ScipyDAE, ScipyIVP) x dt over two decades: position-level "
+             "constraints (Rattle, BackwardEuler, DSV), velocity level (Rattle; Moreau at the midpoint), unit quaternions, ScipyDAE drift-free at its tolerance, ScipyIVP accelerations/multipliers satisfy the "
+             "equations of motion and acceleration-level constraints.",
+        note="Trusted: tolerances tightened to 1e-11 (DSV 1e-10); executions in which a solver gives up are counted, a solver with < 60 % completed runs makes the run BROKEN. Horizon 20 (quick) / 100 steps.",
+        design="§3 C17"),
+    "C19": dict(
+        level="exploration", engine="grid",
+        technique="exhaustive product enumeration of conservative system x initial state x {order, drift, reversal} experiments on the real RATTLE integrator",
+        text="7 conservative systems x 2 generic initial velocities: energy-error ratio under step halving in [3, 5.3] (measured 3.96-4.03), running maximum of the energy error at T <= 2x that at T/3 "
+             "(T = 8 quick / 40 thorough), forward - reverse velocities - forward returns to the initial state within 1e-7 (measured 9e-10).",
+        note="Long-horizon statement checked up to T only; for the two non-integrable systems the drift ratio is a statistic, they are judged on order and reversibility. Newton tolerance 1e-12.",
+        design="§3 C19"),
 }
 NOT_APPLICABLE = {}
